@@ -159,6 +159,7 @@ func (c *UDPConn) ReadFromUDP(p []byte) (int, *net.UDPAddr, error) {
 			d := c.q[0]
 			c.q = c.q[1:]
 			n := copy(p, d.data)
+			raceRead()
 			c.NRecv++
 			c.ReadLog = append(c.ReadLog, d.rec)
 			c.ReadSeqs = append(c.ReadSeqs, simrt.Steps())
@@ -210,6 +211,7 @@ func (c *UDPConn) WriteToUDP(p []byte, ua *net.UDPAddr) (int, error) {
 		c.WriteErrs++
 		return 0, opErr("write", "udp", ua, syscall.ENETUNREACH)
 	}
+	raceWrite()
 	w.nextDg++
 	rec := &DgramRec{ID: w.nextDg, At: simrt.Elapsed(), Seq: simrt.Steps(), From: c.sourceFor(ua.IP), To: &net.UDPAddr{IP: ua.IP, Port: ua.Port, Zone: ua.Zone},
 		FromSock: c, Payload: append([]byte(nil), p...)}
